@@ -2,7 +2,7 @@
 ID = "C09"
 PROPS = "Props/C09.v"
 COQ_TIMEOUT = 5400   # Coq build of this property incl. rebuilt dependencies; generous: on a loaded machine a rebuild after an upstream edit took > 1500 s
-GEN = ["x509tables"]
+GEN = ["x509tables", "sm2", "sm2sig"]   # every Gen file in the Coq closure of Props/C09.v is regenerated (never a stale table)
 LEGS = [{"driver": "c09", "runner": ("x509", "Extract/ExtractX509.v", "X509_model")}]
 
 TECHNIQUE = ("Coq proofs over tables regenerated from x509/x509.go (signature algorithms, OIDs, switches) and over a model of the signing "
@@ -17,7 +17,10 @@ LEVEL_TEXT = ("Theorems in Coq (Props/C09.v): sigalg_table_consistent (OID <-> a
               "constraints (MaxPathLen -1/0/MaxPathLenZero) and DER INTEGER (serials of any sign/size, minimal length) for all inputs. "
               "Relative to C01 (SM2Facts): created_verifies_sm2 (the signature an SM2 signer stores verifies under the issuer key, all keys, TBS, "
               "random streams), created_rejects_changed_signature (checkSignature accepts exactly the strict DER{r,s} of pairs Sm2Verify accepts), "
-              "created_rejects_changed_tbs (same signature accepted for two TBS => SM3 digests agree mod n); RSA/ECDSA by contract. Byte-level "
+              "created_rejects_changed_tbs (same signature accepted for two TBS => SM3 digests agree mod n), C09_signer_signs_over_default_Z (the "
+              "stored signature is an Sm2Sign result for the default user id, a function of key, TBS and random stream only) and "
+              "C09_other_uid_Z_rejected (a signature over the Z value of another user id is accepted by checkSignature only if the digests agree "
+              "mod n); RSA/ECDSA by contract. Byte-level "
               "extension codecs over a proved DER layer (TLV, base-128, OIDs): SubjectAltName, ExtKeyUsage, CertificatePolicies, NameConstraints, "
               "Subject/AuthorityKeyId round-trip for everything the builders accept; extension OIDs, parse arms and KeyUsage bit order tied to "
               "the source. Differential run: ~400 (quick) / ~3000 (thorough) templates over all documented fields x signer {SM2, RSA-2048, P-256} x 22 "
@@ -82,7 +85,21 @@ RULE = ("T case lines carry, besides the seed, (field 8) whether the template li
         "coordinates have 0, 1, 2 and 3 leading zero bytes (x, y or both; scalars found off line), in a seed-rotated order: each key issues a "
         "self-signed CA certificate, a certificate for the next key, a request and a CRL, and after every issuance ALL objects so far are "
         "verified again under their issuer (must hold), after each key's last object also under every other key used so far (must fail), and public keys must parse back "
-        "to the coordinates (implementation-only: the runner prints SKIP). P cases (40 quick / 400 thorough): a signer LOADED through "
+        "to the coordinates (implementation-only: the runner prints SKIP). Y cases with an operation list (24 quick / 240 thorough): USER-ID "
+        "HISTORIES on ONE *sm2.PrivateKey object (fixed scalars with short coordinates and random ones): Sm2Sign / Sm3Digest / Sm2Verify with "
+        "user ids (empty, the default id spelled out, a prefix of it, the default id plus one octet, 'alice@example.org', 1..40 random octets), "
+        "PrivateKey.Sign, value copies of the key object, and certificates / requests / CRLs / RevocationLists issued with the same object "
+        "in between (every history has an operation with a non-default id before its first or second issuance): after EVERY operation all "
+        "objects issued so far must verify under the issuer's public key (a certificate issued by a fresh key object and parsed), a "
+        "signature made with id u must verify with u under a fresh public key and through the used object and with the default id exactly "
+        "when u is the default id, Sm3Digest of the used object must equal that of a fresh one (implementation-only; the model is a "
+        "function of (key, uid, message) and has no state: C09_signer_signs_over_default_Z, C09_other_uid_Z_rejected). Q cases with six fields (30 quick / 300 thorough): BUNDLES - 1 to 6 "
+        "certificates issued by the package (r = random template with extensions of every kind, b = self-signed from a template that uses "
+        "NO optional field, n = the same under a parent without SubjectKeyId, k = KeyUsage only; SM2 and P-256 signers; every order of "
+        "with / without extensions systematically, then random shapes) are concatenated and read back through ParseCertificates: every "
+        "certificate must equal its own template field by field (the comparison of T cases), for ParseCertificates AND ParseCertificate, "
+        "the two parsed structures must be equal in every field, the bare kinds must come back without extensions and each must verify "
+        "under its signer's key (implementation-only). P cases (40 quick / 400 thorough): a signer LOADED through "
         "ParseSm2PrivateKey / ParsePKCS8UnecryptedPrivateKey / ReadPrivateKeyFromPem from a hand-built key file whose scalar OCTET STRING "
         "has 30, 31 (leading zero octets stripped), 32, 33 or 34 octets (zero padding, as signed-integer encoders write), with or without the "
         "optional public key: the loaded key must be (d, [d]G) with [d]G computed by the check module's own curve arithmetic, the certificate "
@@ -329,7 +346,7 @@ def _insecure(f):
 
 
 def nontrivial(f):
-    return (len(f) >= 7 and f[0] == "T") or f[0] == "E" or (f[0] == "P" and len(f) == 6) or (f[0] == "Q" and len(f) == 5) or (f[0] == "Y" and len(f) >= 3 and f[2].count(",") >= 2)
+    return (len(f) >= 7 and f[0] == "T") or f[0] == "E" or (f[0] == "P" and len(f) == 6) or (f[0] == "Q" and len(f) == 5) or (f[0] == "Q" and len(f) == 6 and f[2] == "bundle") or (f[0] == "Y" and len(f) == 3 and f[2].count(",") >= 2) or (f[0] == "Y" and len(f) == 4 and _uid_history_nontrivial(f[3].split(",")))
 
 
 KNOWN_EKU_OIDS = {"2.5.29.37.0", "1.3.6.1.4.1.311.10.3.3", "2.16.840.1.113730.4.1"} | {"1.3.6.1.5.5.7.3.%d" % i for i in range(1, 10)}
@@ -505,14 +522,87 @@ def _predicate_Y(f, io):
     return True, ""
 
 
+_DEFAULT_UID_HEX = "31323334353637383132333435363738"
+_ISSUE_OPS = ("cert", "csr", "crl", "rl")
+
+
+def _uid_history_expect(ops):
+    """(objects, checks) a user-id history must report: s = 3 checks, d = 1, v = 2, S = 2, copy = 0, issuing = 0, and after every
+    operation one check per object issued so far"""
+    objs = checks = 0
+    for op in ops:
+        k = op.split(":")[0]
+        if k in _ISSUE_OPS:
+            objs += 1
+        elif k not in ("s", "d", "v", "S", "copy"):
+            return None
+        checks += {"s": 3, "d": 1, "v": 2, "S": 2}.get(k, 0) + objs
+    return objs, checks
+
+
+def _uid_history_nontrivial(ops):
+    """some operation with a user id other than the default one (empty = default) comes before an issuing operation"""
+    seen = False
+    for op in ops:
+        k, _, u = op.partition(":")
+        if k in ("s", "d", "v") and u not in ("", _DEFAULT_UID_HEX):
+            seen = True
+        if k in _ISSUE_OPS and seen:
+            return True
+    return False
+
+
+def _predicate_YU(f, io):
+    """a history of operations on ONE SM2 key object (signatures / digests / verifications with arbitrary user ids, value copies,
+    issuing): whatever came before, every issued object verifies under the issuer's public key at every later point, signatures
+    verify with exactly their own user id, and the used key object answers like a fresh one"""
+    if not io or io[0] in ("PANIC", "HANG"):
+        return False, "implementation " + (io[0] if io else "gave no result")
+    ops = f[3].split(",")
+    want = _uid_history_expect(ops)
+    if want is None:
+        return False, "malformed user-id history"
+    if io[0] != "ok" or len(io) < 4:
+        return False, "user-id history could not be run (signing / creation / parsing refused for a valid SM2 key): " + " ".join(io)
+    if io[1] != str(want[0]):
+        return False, "user-id history issued %s objects, expected %d" % (io[1], want[0])
+    if io[2] != str(want[1]):
+        return False, "user-id history made %s checks, expected %d" % (io[2], want[1])
+    if io[3] != "-":
+        return False, "history of operations on one SM2 key object (user ids %s): %s" % (
+            ";".join(sorted({op.partition(":")[2] or "default" for op in ops if ":" in op}))[:160], io[3])
+    return True, ""
+
+
+def _predicate_bundle(f, io):
+    """certificates issued by the package, concatenated and read back through ParseCertificates: each one comes back with the field
+    values of its own template and equal to what ParseCertificate gives for the same bytes, whatever stands next to it"""
+    if not io or io[0] in ("PANIC", "HANG"):
+        return False, "implementation " + (io[0] if io else "gave no result")
+    els = f[5].split(",")
+    if any(e.split(":")[0] not in ("r", "b", "n", "k") for e in els):
+        return False, "malformed bundle case"
+    if io[0] != "ok" or len(io) < 4:
+        return False, "bundle could not be issued / parsed (valid templates, matching signature algorithm): " + " ".join(io)
+    if io[1] != str(len(els)) or io[2] != str(1 + 4 * len(els)):
+        return False, "bundle of %d certificates: driver reports %s certificates, %s checks" % (len(els), io[1], io[2])
+    if io[3] != "-":
+        return False, "bundle %s read through ParseCertificates: %s" % (".".join(e.split(":")[0] for e in els), io[3])
+    return True, ""
+
+
 def _predicate(f, io):
     """the property evaluated on what /repo did (no model involved)"""
     if f[0] == "E":
         return _predicate_E(f, io)
+    if f[0] == "Y" and len(f) == 4:
+        return _predicate_YU(f, io)
     if f[0] == "Y":
         return _predicate_Y(f, io)
     if f[0] == "P":
         return _predicate_P(f, io)
+    if f[0] == "Q" and len(f) == 6 and f[2] == "bundle":
+        return _predicate_bundle(f, io)
     if f[0] == "Q":
         return _predicate_Q(f, io)
     if not io or io[0] in ("PANIC", "HANG"):
@@ -561,8 +651,12 @@ def _classify(f, io):
     """kind:signer:created|rejected[:crossfamily|:insecure][:noverify][:diff][:algsurvivor][:survivor]"""
     if f[0] == "P":
         return "P:%s:%s:%s" % (f[3], f[4], "ok" if io[:1] == ["ok"] and io[6:7] == ["111"] else "fail")
+    if f[0] == "Q" and len(f) == 6 and f[2] == "bundle":
+        return "B:%s:%s" % (".".join(e.split(":")[0] for e in f[5].split(","))[:9], "ok" if io[:1] == ["ok"] and io[3:4] == ["-"] else "fail")
     if f[0] == "Q":
         return "Q:%s:%s:%s" % (f[2], f[4], "ok" if io[:1] == ["ok"] and io[3:5] == ["1", "1"] else "fail")
+    if f[0] == "Y" and len(f) == 4:
+        return "YU:" + ("ok" if io[:1] == ["ok"] and io[3:4] == ["-"] else "fail")
     if f[0] == "Y":
         return "Y:" + ("ok" if io[:1] == ["ok"] and io[3:4] == ["-"] else "fail")
     if f[0] == "E":
